@@ -192,6 +192,12 @@ def body_als(c):
         lams.append((evs, ets))
     for t, s in snaps:
         build.require_unchanged(t, s, 'argument of evp.als')
+    # a second call with identical arguments gives identical eigenvalues (no state carried over between calls,
+    # e.g. through the mutable default of `previous`)
+    ev_again, _, _ = run(op, prev, c['repeats'])
+    a1 = np.atleast_1d(np.asarray(lams[-1][0], dtype=float))
+    a2 = np.atleast_1d(np.asarray(ev_again, dtype=float))
+    close(a2, a1, 1e-12, scale, 'repeatable', 'eigenvalues of a second call with identical arguments')
     if nev == 1:
         for k in range(len(lams) - 1):
             a, b = abs(lams[k][0][0] - sigma), abs(lams[k + 1][0][0] - sigma)
